@@ -119,7 +119,7 @@ func resolvePipeline(c *Ctx, rule string) *pipeline {
 }
 
 func checkC09(c *Ctx) {
-	c.Explanation = "Decides the structural discipline that makes the pipeline schedule-independent: (R1) each pipeline channel has exactly one close site, owned by the producing stage, executed once (deferred close in Handle that dominates every return; close-then-return in the stream handler; nobody calls ByteChannel.Close); (R2) one sender per channel, in the producing goroutine, no goroutine started inside a per-byte or per-message loop; (R3) the fan-out sends every received message to every non-nil consumer channel in index order, synchronously, before the next receive, and sends the received value itself; (R4) the fan-out returns 0 only on the closed-channel edge; (R5) termination chain: Handle's loop leaves only by return, the stream handler returns only after closing its output on the 'done' error, which the push-back reader produces only on a closed channel; (R6) confinement: pointer operands of the go statements are not used by the spawner afterwards and no pipeline function writes a package-level variable; (R7) Kahn determinism: no select, non-blocking channel operation, clock or goroutine start in the framing stage.  Together with Go's channel semantics these imply the same message sequence at every consumer under every schedule, termination, close-once and absence of races in the pipeline's own code. (R9) gaps in the input are bridged as documented whatever their timing: the error classification and the EOF-clock rules of C13 (cleared after every successful read, started only when clear)."
+	c.Explanation = "Decides the structural discipline that makes the pipeline schedule-independent: (R1) each pipeline channel has exactly one close site, owned by the producing stage, executed once (deferred close in Handle that dominates every return; close-then-return in the stream handler; nobody calls ByteChannel.Close); (R2) one sender per channel, in the producing goroutine, no goroutine started inside a per-byte or per-message loop; (R3) the fan-out sends every received message to every non-nil consumer channel in index order, synchronously, before the next receive, and sends the received value itself; (R4) the fan-out returns 0 only on the closed-channel edge; (R5) termination chain: Handle's loop leaves only by return, the stream handler returns only after closing its output on the 'done' error, which the push-back reader produces only on a closed channel; (R6) confinement: pointer operands of the go statements are not used by the spawner afterwards and no pipeline function writes a package-level variable; (R7) Kahn determinism: no select, non-blocking channel operation, clock or goroutine start in the framing stage.  Together with Go's channel semantics these imply the same message sequence at every consumer under every schedule, termination, close-once and absence of races in the pipeline's own code. (R9) gaps in the input are bridged as documented whatever their timing: the error classification and the EOF-clock rules of C13 (cleared after every successful read, started only when clear). R6 also requires that the handler keeps no reference-typed field that could hold frame bytes and that the buffer of every fetch is freshly allocated, so a delivered message shares no storage with the framer's later work; R9 includes that the tolerance accessors of the configuration are plain projections of their settings."
 	c.NotDecided = "the Go scheduler and memory model themselves; behaviour of caller-supplied consumers; races inside bufio/log; byte-level framing (C02/C03)."
 	c.Assumptions = append(c.Assumptions, "callers of Handle/HandleMessagesUntilEOF do not close the channels they pass in while the pipeline runs (API contract stated in the doc comments)")
 	pl := resolvePipeline(c, "C09-anchor")
@@ -138,9 +138,12 @@ func checkC09(c *Ctx) {
 		ruleForwardOnce(c, pl, "C09-R8", read, nVal, errVal)
 		// R9: gaps in the input (EOF / timeout runs) are bridged as documented, whatever their timing
 		ruleTransientGaps(c, pl.handle, nVal, errVal, "C09-R9", "C09-R9")
+		ruleToleranceAccessors(c, "C09-R9")
 	} else {
 		c.Fail("C09-R8", "Handle:read", pl.handle.Pos(), "unresolved", "the read call of Handle was not found")
 	}
+	// R6 (continued): a delivered message shares no storage with what the framer does afterwards
+	ruleFreshFrameBuffers(c, "C09-R6")
 	c.MinInstances("C09-R1", 3)
 	c.MinInstances("C09-R2", 3)
 	c.MinInstances("C09-R3", 4)
